@@ -62,6 +62,19 @@ def step (st : Unit) (j : Json) : Unit × Json :=
         | .raisedBeforeAnyEffect e => pure (okJson (Json.mkObj [("early", Json.str e)]))
         | .ran fs' raised => pure (okJson (Json.mkObj [("fs", fsToJson fs'), ("raised", Json.bool raised),
             ("steps", Json.arr (trace.map fun s => Json.str (stepToStr s)).toArray)]))
+    | "history" =>
+        -- a history of save calls onto one target: filesystem and ids of the calls that returned
+        -- normally after every prefix (`runCalls`, `succeededIds` of Model/SaveFs.lean)
+        let calls ← (← arrField j "calls").toList.mapM fun cj => do
+          let k : Call := {
+            cfg := { target := c.target, staged := (← strField cj "staged"), id := (← natField cj "id") },
+            modeO := (← boolField cj "modeO"), levelOk := true, dirHasExt := false, zip := (← boolField cj "zip"),
+            nTmp := (← natField cj "nTmp"), nWrites := (← natField cj "nWrites"),
+            fault := (match cj.getObjVal? "fault" with | .ok f => f.getNat?.toOption | .error _ => .none) }
+          pure k
+        let prefixes := (List.range (calls.length + 1)).map fun i => calls.take i
+        pure (okJson (Json.arr (prefixes.map fun ks => Json.mkObj [("fs", fsToJson (runCalls fs ks)),
+          ("succeeded", Json.arr ((succeededIds fs ks).map fun i => Json.num (JsonNumber.fromNat i)).toArray)]).toArray))
     | _ => throw s!"unknown op {op}" : Except String Json) with
   | .ok r => (st, r)
   | .error e => (st, errJson s!"driver:{e}")
